@@ -535,8 +535,13 @@ pub struct ParseFlag<T> {
 
 impl<T: Clone + 'static> Parser<T> for ParseFlag<T> {
     fn eval(&self, args: &mut State) -> Result<T, Error> {
-        if args.take_flag(&self.named) || self.named.env.iter().find_map(std::env::var_os).is_some()
-        {
+        let on_the_line = args.take_flag(&self.named);
+        if on_the_line || self.named.env.iter().find_map(std::env::var_os).is_some() {
+            if !on_the_line {
+                // present because of the variable: no word on the line to blame
+                // if a later check fails
+                args.current = None;
+            }
             #[cfg(feature = "autocomplete")]
             if args.touching_last_remove() {
                 args.push_flag(&self.named);
